@@ -43,11 +43,39 @@ def gen_matrix(rng, nmax=5, r=None, c=None):
     return dict(rows=M, cls=cls)
 
 
-def to_container(rows, kind, rng=None):
-    """float container of the given kind holding exactly the dyadic matrix `rows`"""
+def pick_dtype(rows, rng):
+    """a numpy dtype that holds the dyadic matrix `rows` exactly (float64 most of the time; integer / unsigned / single precision
+    when the values allow it, with head-room for the sums the package forms: |entries| summed stay far below the type's range)"""
+    vals = [Fraction(x) for r in rows for x in r]
+    opts = ["float64", "float64", "float64"]
+    if all(v.denominator == 1 for v in vals):
+        opts += ["int64", "int32"]
+        if vals and all(v >= 0 for v in vals) and 8 * sum(vals) < 200:
+            opts = ["float64", "int64", "uint8", "uint8", "uint16", "uint32"]
+    if all(v.denominator in (1, 2, 4) and abs(v) < 64 for v in vals):
+        opts += ["float32"]
+    return rng.choice(opts)
+
+
+def typed(m, rng):
+    """sometimes turns the generated matrix into an integer-valued (or non-negative integer-valued) one, and picks a dtype that holds
+    it exactly; returns the dtype name (the matrix in `m` is changed in place)"""
+    r = rng.random()
+    if r < 0.2:
+        m["rows"] = [[Fraction(int(x * 4)) for x in row] for row in m["rows"]]
+    elif r < 0.4:
+        # small non-negative integers (odd and even: halves appear when the matrix is symmetrised)
+        m["rows"] = [[Fraction(abs(int(x * 4)) % 4) for x in row] for row in m["rows"]]
+    return pick_dtype(m["rows"], rng)
+
+
+def to_container(rows, kind, rng=None, dtype=None):
+    """container of the given kind (and dtype, default float64) holding exactly the dyadic matrix `rows`"""
     import numpy as np
     import scipy.sparse as sp
     A = np.array([[float(x) for x in r] for r in rows], dtype=float)
+    if dtype not in (None, "float64"):
+        A = A.astype(dtype)
     if A.ndim == 1:
         A = A.reshape((len(rows), 0))
     if kind == "ndarray":
@@ -61,6 +89,9 @@ def to_container(rows, kind, rng=None):
     if kind == "csr_matrix":
         return sp.csr_matrix(A)
     if kind == "coo":
+        return sp.coo_array(A)
+    if kind == "coo_dup" and A.dtype.kind != "f":
+        kind = "coo"
         return sp.coo_array(A)
     if kind == "coo_dup":
         rr, cc = np.nonzero(A)
